@@ -94,12 +94,12 @@ def crafted_for_client(rng, client, retired):
     return C.msg_from_json(m).pack(M.PackingOptions()), m
 
 
-def crafted_for_server(rng):
+def crafted_for_server(rng, custom=False):
     kind = rng.choice(["bindReq", "searchReq", "extReq", "extReq", "unbind", "bindResp", "extResp", "searchDone"])
-    op = gen.g_op(rng, kind, depth=1)
+    op = gen.g_op(rng, kind, depth=1, allow_custom=custom)
     if kind == "extResp" and rng.random() < 0.5:
         op["name"] = C.tx(NOTICE)
-    m = {"id": rng.choice([1, 2, 3, 5, 0, 70000]), "op": op, "controls": []}
+    m = {"id": rng.choice([1, 2, 3, 5, 0, 70000]), "op": op, "controls": gen.g_controls(rng, allow_custom=True) if custom else []}
     return C.msg_from_json(m).pack(M.PackingOptions()), m
 
 
@@ -116,7 +116,7 @@ def junk(rng):
     return bytes(data)
 
 
-def gen_history(rng, length, names=("c", "s"), mode="joint"):
+def gen_history(rng, length, names=("c", "s"), mode="joint", custom=False):
     """returns a list of requests; the generator executes them on a shadow implementation to
     make state-aware choices (ids, bytes to deliver)"""
     im = IMPL.Impl()
@@ -162,7 +162,7 @@ def gen_history(rng, length, names=("c", "s"), mode="joint"):
                 data, _ = crafted_for_client(rng, c, retired[cn])
                 do({"op": "call", "name": cn, "call": {"k": "receive", "chunk": data.hex()}})
             elif rng.random() < 0.6:
-                data, _ = crafted_for_server(rng)
+                data, _ = crafted_for_server(rng, custom)
                 do({"op": "call", "name": sn, "call": {"k": "receive", "chunk": data.hex()}})
             else:
                 do({"op": "call", "name": rng.choice([cn, sn]), "call": {"k": "receive", "chunk": junk(rng).hex()}})
